@@ -252,6 +252,15 @@ def find_roles(pis):
     return roles
 
 
+def roles_from_enable(group):
+    out = {}
+    for func, pi in group:
+        for t in pi.tokens:
+            if t[0] == "cb" and t[1] == "comp":
+                out.setdefault("comp", t[4])
+    return out
+
+
 def mode_present(pi):
     """does the selector have an active mode on this path (decided by its own lookups)"""
     for a, v in pi.atoms.items():
@@ -323,14 +332,20 @@ def analyse(ctx, funcs=robot.MODE_FUNCS, fault=False):
     res = []
     ws = worlds if not fault else worlds[-1:]
     for w, per in ws:
+        group = []
         for func in funcs:
             pis = explore(ctx, info, w, func, fault=fault)
-            roles = find_roles(pis)
-            for pi in pis:
-                pi.roles = roles
-                pi.mode_present = mode_present(pi)
-                res.append((func, w, per, pi))
+            group += [(func, pi) for pi in pis]
             ctx.add("paths", len(pis))
+        # list roles are inferred by use over all mode functions of this robot
+        roles = find_roles([pi for _, pi in group])
+        extra = roles_from_enable(group)
+        for k, v in extra.items():
+            roles.setdefault(k, v)
+        for func, pi in group:
+            pi.roles = roles
+            pi.mode_present = mode_present(pi)
+            res.append((func, w, per, pi))
     ctx.cov["mode_functions"] = len(funcs)
     ctx.cov["robot_variants"] = len(ws)
     return info, res
@@ -437,3 +452,146 @@ def dispatch_table(ctx, info, world):
             if all(val[i] == v for i, v in flags.items()):
                 table.setdefault(val, set()).add(disp[0])
     return table, len(paths)
+
+
+# ----------------------------------------------------------------------------------------
+# _create_components: phases of start-up (C05.O3, C06.O1, C08.O4, C10.O3, C11.O5)
+# ----------------------------------------------------------------------------------------
+from ..values import ListOf, ListV, DictV  # noqa: E402
+
+OPAQUE = ("setup_tunables", "collect_feedbacks", "collect_resets", "get_injection_requests", "find_injections")
+
+
+class CreateHooks(robot.RobotHooks):
+    def __init__(self, info):
+        robot.RobotHooks.__init__(self, dict(info, skip_create=False))
+        self.log = []
+
+    def intercept(self, it, f, vals, node):
+        if f.qualname == "MagicRobot._collect_injectables":
+            it.emit("phase", "_collect_injectables", [], node=node)
+            return DictV()
+        if f.name in OPAQUE and f.owner is None:
+            args = list(vals.values())
+            snap = None
+            if f.name == "find_injections":
+                inj = args[1]
+                snap = list(inj.items.keys()) if isinstance(inj, DictV) else None
+            it.emit("phase", f.name, args, node=node, extra=snap)
+            if f.name == "collect_feedbacks":
+                lo = ListOf((Ext("getter", "user", role="elem"), Ext("setter", "lib", role="elem")), label=f"feedbacks({args[1]!r})")
+                lo.owner = args[0]
+                return lo
+            if f.name == "collect_resets":
+                return Ext(f"collect_resets({args[0]!r})", "lib", role="result", maybe_none=False)
+            if f.name in ("get_injection_requests", "find_injections"):
+                return Ext(f"{f.name}()", "lib", role="instance")
+            return None
+        return robot.RobotHooks.intercept(self, it, f, vals, node)
+
+    def ext_call(self, it, fn_, args, kwargs, node):
+        p = fn_.path
+        if p == "typing.get_type_hints":
+            e = Ext(f"type_hints({args[0]!r})", "lib", role="instance")
+            e.is_hints = args[0]
+            return e
+        if p.endswith(".items") and getattr(fn_.parent, "is_hints", None) is not None:
+            lo = ListOf((Sym("attr", "str", tag="nonnull"), Ext("annotated_type", "user", role="class")), label="type_hints")
+            return lo
+        if p.endswith(".pop") and getattr(fn_.parent, "is_hints", None) is not None and len(args) == 2:
+            return args[1]
+        return robot.RobotHooks.ext_call(self, it, fn_, args, kwargs, node)
+
+
+def create_paths(ctx):
+    info, worlds = prepare(ctx)
+    w, per = worlds[0]
+
+    def run(it, world):
+        r = world["robot"]
+        it.call(it.getattr(r, "_create_components"), [], {})
+        return r
+
+    def hooks():
+        return CreateHooks(info)
+
+    paths = fn.all_paths(ctx, run, hooks=hooks, world=w, max_paths=50000)
+    return info, paths
+
+
+def create_events(p):
+    """simplified event list of one _create_components path"""
+    out = []
+    for e in p.trace:
+        if e.kind == "phase":
+            out.append(("phase", e.name, e.args, e.extra, e))
+        elif e.kind == "user":
+            n = e.name
+            if n.startswith("annotated_type#") and "." not in n:
+                out.append(("create", int(n.split("#")[1].split("(")[0]), e))
+            elif n.endswith(".setup"):
+                out.append(("setup", n, e))
+            elif n.endswith(".__dict__.update"):
+                out.append(("dictupdate", n, e))
+            elif ".__setattr__" in n or n.endswith(".__setitem__"):
+                continue
+            elif n.endswith(".values") or n.endswith(".items") or n.endswith(".startswith"):
+                continue
+            else:
+                out.append(("usercall", n, e))
+        elif e.kind == "listof_append" or e.kind == "listof_extend":
+            out.append((e.kind, e.name, e.args, e))
+        elif e.kind == "raise":
+            out.append(("raise", e.name, e))
+    return out
+
+
+# ----------------------------------------------------------------------------------------
+# fault paths: one user callback raises
+# ----------------------------------------------------------------------------------------
+def fault_site(pi):
+    ev = pi.fault[-1]
+    return ev.site
+
+
+def faulted_key(pi):
+    """key of the callback token that raised (the callback token just before the fault marker)"""
+    prev = None
+    for t in pi.tokens:
+        if t[0] == "fault":
+            return prev
+        if t[0] == "cb":
+            prev = key(t)
+    return None
+
+
+def fault_skeleton_check(ctx, res, keep, rule, what):
+    """with the FMS attached a single raising callback must not change the callback sequence"""
+    n = 0
+    reported = set()
+    for func, w, per, pi in res:
+        if pi.fault is None:
+            continue
+        fms = pi.fms()
+        if not fms or not fms[-1]:
+            continue  # not attached / unguarded: judged by C07
+        if pi.outcome == "raise":
+            continue  # judged by C07.O2
+        fk = faulted_key(pi)
+        exp, complete = expected_sequence(pi, w, per)
+        if fk is not None and fk[0] == "fbget":
+            exp = [k for k in exp if k != ("set", fk[1])]
+        act = [key(t) for t in pi.tokens]
+        a, e = project(act, keep), project(exp, keep)
+        n += 1
+        d = compare(a, e)
+        if d is not None:
+            i, got, want = d
+            k = (func, fk, got, want)
+            if k in reported:
+                continue
+            reported.add(k)
+            ctx.fail(rule, f"{func}(): {what}: when {show_key(fk)} raises with the FMS attached the callback sequence changes: at position {i} the code does {show_key(got)} where {show_key(want)} is required (sequence so far: {' '.join(show_key(x) for x in a[max(0, i - 4):i])})", site=fault_site(pi), key=f"{rule}|fault|{func}|{show_key(fk)}|{show_key(want)}")
+    if not reported:
+        ctx.ok(rule, f"{what}: unchanged on all {n} single-fault paths with the FMS attached")
+    return n
